@@ -25,8 +25,11 @@ def check(path, truth=None, tag=''):
     if sp.nhb != 2:
         v('header-block-count', 'bytes 0-3 = %d, a written file has 2 header blocks' % sp.nhb)
     nd = 2 if sp.is2d else 3
-    if sp.rate_raw == 0 or sp.rate not in oracles.VALID_RATES:
-        v('bit-rate-field', 'bits-per-voxel field %d is not one of the valid rates' % sp.rate_raw)
+    # the specification only says "bits-per-voxel (negative signifying reciprocal)": any power of two is a well-formed rate
+    # (which rates a writer must accept is C19's question, not conformance)
+    lg = np.log2(sp.rate) if sp.rate_raw != 0 else 0.5
+    if sp.rate_raw == 0 or lg != int(lg):
+        v('bit-rate-field', 'bits-per-voxel field %d is not a power of two' % sp.rate_raw)
         return bad, sp
     bsh = sp.bshape
     if any(b < 4 or b & (b - 1) for b in bsh) or (sp.is2d and sp.bs[0] != 1):
